@@ -17,6 +17,8 @@ PANIC_ENTRY_PREFIXES = (
 
 # external callees with a documented panic condition (by generic def path prefix or exact path); value = condition
 PANICKY_EXACT = {
+    "std::iter::Iterator::sum": "integer overflow of the running total (overflow checks are inherited by the caller's build profile)",
+    "std::iter::Iterator::product": "integer overflow of the running product (overflow checks are inherited by the caller's build profile)",
     "std::option::Option::<T>::unwrap": "None",
     "std::option::Option::<T>::expect": "None",
     "std::result::Result::<T, E>::unwrap": "Err",
@@ -130,6 +132,10 @@ def classify_call(fn, t):
             return "extern", "lazy-deref", cond
         if d == "std::string::ToString::to_string":
             return None  # to_string panics only if Display errs: Display impls of this crate are covered by ERRFLOW-free formatting; std ones never err
+        if d in ("std::iter::Iterator::sum", "std::iter::Iterator::product"):
+            inst = c.get("inst") or ""
+            if inst.endswith(("::<f64>", "::<f32>")):
+                return None  # floating-point totals do not overflow-panic
         if d in ("std::ops::Div::div", "std::ops::Rem::rem"):
             tys = [fn.facts.ty(i) for i in c.get("targs", [])]
             if not any(x.kind() == "prim" and x.s not in ("f64", "f32") for x in tys):
@@ -304,11 +310,58 @@ def run_census(ctx, rule, root_defs, F, reviews, prop_id, label, only=None, extr
         if moved is not None:
             rep.ob(rule, key, True, "", where, how="reviewed argument of %s carried over (the site moved); guard %s re-established here: %s" % (moved[0], moved[2], moved[1]["reason"]))
             continue
+        # magnitude arguments about an addition ("counts characters of the text", "bounded by the token count") do not depend on the
+        # control context of the site: they are carried over when the same addition (same operand description) reappears in the same
+        # function (closure <-> loop body) or in a new helper that only that function calls, and the reviewed site is gone
+        if shp[0] == "assert" and shp[1].startswith("overflow_add("):
+            top_new = _top_path(F, b)
+            for k2, rv2 in reviews.items():
+                if rv2.get("guard") or k2 in all_keys:
+                    continue
+                # a running total written out by hand is the library sum() it replaced (same function)
+                if _shape(k2) == ("extern", "sum") and _key_top(k2) == top_new:
+                    moved = (k2, rv2)
+                    break
+                if _shape(k2) != shp:
+                    continue
+                top_old = _key_top(k2)
+                same_fn = top_old == top_new
+                only_caller = False
+                if not same_fn:
+                    callers = {_top_path(F, f2) for f2 in F.all_bodies(tests=False) for bi2, t2 in f2.calls() if (t2["callee"].get("resolved") or t2["callee"].get("def")) == top_new}
+                    only_caller = bool(callers) and callers <= {top_old} and not any(_key_top(k3) == top_new for k3 in reviews)
+                if same_fn or only_caller:
+                    moved = (k2, rv2)
+                    break
+            if moved is not None:
+                rep.ob(rule, key, True, "", where, how="reviewed magnitude argument of %s carried over (the same addition, moved %s): %s" % (
+                    moved[0], "within the function" if _key_top(moved[0]) == top_new else "into a helper only that function calls", moved[1]["reason"]))
+                continue
         chain = F.path_to(parent, iid) if iid is not None else []
         rep.fail(rule, key, "undischarged %s site in a body reachable from %s: %s can panic / is undefined when: %s. Path: %s" % (
             s["kind"], label, s.get("callee") or s["detail"], s["cond"], " -> ".join(chain[-6:] + [b.path])), where)
     rep.notes.setdefault("census", {})["%s/%s" % (label, F.profile)] = {"bodies": n_bodies, "sites": n_sites}
     return n_bodies, n_sites
+
+
+def _key_top(key):
+    """top-level function of a site key (closure segments and the site suffix removed)"""
+    import re
+    m = re.search(r"::(assert|extern|panic|unsafe)::", key)
+    path = key[:m.start()] if m else key
+    return re.sub(r"(::\{closure#\d+\})+$", "", path)
+
+
+def _top_path(F, fn):
+    cur = fn.promoted_of or fn
+    g = 0
+    while cur.kind == "closure" and g < 8:
+        g += 1
+        nxt = F.fn(cur.d["parent"])
+        if nxt is None:
+            break
+        cur = nxt
+    return cur.path
 
 
 def _shape(key):
